@@ -170,13 +170,17 @@ Definition tstar_code (x : trop) : trop :=
   | TPInf => TPInf
   end.
 Definition trop_code_ops : sr_ops trop := with_star trop_ops tstar_code.
+(** /repo is a moving target: F2 may have been repaired (star(0) = 0).  The harness probes
+    [ViterbiSemiring.star(0.)] once per run and tells the model which star the code has. *)
+Definition trop_as_coded (star0_is_inf : bool) : sr_ops trop :=
+  if star0_is_inf then trop_code_ops else trop_ops.
 Definition bool_leb (a b : bool) : bool := implb a b.
 
-Definition dense_check_trop (x : nat * nat * list (list (nat * Q)) * list (list (nat * Q))
+Definition dense_check_trop (x : bool * nat * nat * list (list (nat * Q)) * list (list (nat * Q))
                                  * list (list (nat * Q)) * list (list (nat * Q))) : nat :=
-  let '(n, m, A, B, X, U) := x in
+  let '(star0_is_inf, n, m, A, B, X, U) := x in
   let f := map (map trop_of) in
-  dense_check_exact trop_code_ops trop_ops teqb tleb (n, m, f A, f B, f X, f U).
+  dense_check_exact (trop_as_coded star0_is_inf) trop_ops teqb tleb (n, m, f A, f B, f X, f U).
 
 Definition dense_check_bool (x : nat * nat * list (list bool) * list (list bool)
                                  * list (list bool) * list (list bool)) : nat :=
